@@ -137,6 +137,34 @@ func (h Header) Int(key string) int {
 	return int(n)
 }
 
+// 消息体（SDP、参数文本等）允许的最大字节数
+const maxContentLength = 1024 * 1024
+
+// contentLength 获取 Content-Length 域的值。
+// 和 Int 一样忽略无法解析的值或负值（返回 0）；
+// 超过 maxContentLength 的值返回错误，避免按对端声明的长度无限制地分配内存。
+func (h Header) contentLength() (int, error) {
+	fv := h.get(FieldContentLength)
+	if len(fv) < 1 {
+		return 0, nil
+	}
+
+	n, err := strconv.ParseInt(fv, 10, 64)
+	if err != nil {
+		if ne, ok := err.(*strconv.NumError); ok && ne.Err == strconv.ErrRange && fv[0] != '-' {
+			return 0, &badStringError{"Content-Length over the maximum length", fv}
+		}
+		return 0, nil
+	}
+	if n < 0 {
+		return 0, nil
+	}
+	if n > maxContentLength {
+		return 0, &badStringError{"Content-Length over the maximum length", fv}
+	}
+	return int(n), nil
+}
+
 // Setf 格式化的设置头部域
 func (h Header) Setf(key, format string, a ...interface{}) string {
 	value := fmt.Sprintf(format, a...)
